@@ -757,3 +757,6 @@ Definition locase_spec (c : locase) : bool :=
   if lc_obs c =? 0 then logout_valid (lc_cfg c) (lc_lo c) (lc_doc c)
   else if lc_obs c =? 1 then negb (logout_valid (lc_cfg c) (lc_hi c) (lc_doc c)) else false.
 Definition check_c18 := check_cases locase_agree locase_spec.
+
+(* C09 on the logout path: an error or a verdict, never a panic *)
+Definition check_c09_logout := check_cases locase_agree (fun c => negb (lc_obs c =? 2)).
